@@ -1405,7 +1405,7 @@ reader_init = Spec(
     params={'block_size': 'int', 'max_requests': 'int', 'handler': 'obj:Handler', 'handle': 'bytes',
             'offset': 'int', 'size': 'int'},
     stubs={'super().__init__': contract_stub(lambda: pio_init)},
-    modifies=PIO_INIT_FIELDS + ['_handle', '_start'],      # (+ _handler: see same_obj)
+    modifies=PIO_INIT_FIELDS + ['_handle', '_start', '_handler'],      # (_handler: see same_obj)
     ensures=[('scheduler-range', lambda c: pio_init_post(c, iarg(c, 'size'))),
              # the base of the reassembly buffer is the start of the requested range
              ('reassembly-base-is-the-range-start', lambda c: z3.And(
@@ -1418,7 +1418,7 @@ writer_init = Spec(
     params={'block_size': 'int', 'max_requests': 'int', 'handler': 'obj:Handler', 'handle': 'bytes',
             'offset': 'int', 'data': 'bytes'},
     stubs={'super().__init__': contract_stub(lambda: pio_init)},
-    modifies=PIO_INIT_FIELDS + ['_handle', '_start', '_data'],      # (+ _handler: see same_obj)
+    modifies=PIO_INIT_FIELDS + ['_handle', '_start', '_data', '_handler'],      # (_handler: see same_obj)
     ensures=[('scheduler-range-is-the-whole-data', lambda c: pio_init_post(c, z3.Length(c.arg('data')))),
              ('data-base-is-the-range-start', lambda c: z3.And(
                  c.new('_start') == iarg(c, 'offset'), c.new('_data') == c.arg('data'),
@@ -1445,7 +1445,7 @@ copier_init = Spec(
     PROP, 'sftp', '_SFTPFileCopier.__init__', self_class='Copier', classes=COPIER_CLASSES,
     params=COPIER_INIT_PARAMS,
     stubs={'super().__init__': contract_stub(lambda: pio_init)},
-    modifies=PIO_INIT_FIELDS + ['_sparse', '_srcpath', '_dstpath', '_src', '_dst',      # (+ _srcfs, _dstfs)
+    modifies=PIO_INIT_FIELDS + ['_sparse', '_srcpath', '_dstpath', '_src', '_dst', '_srcfs', '_dstfs',
                                 '_bytes_copied', '_total_bytes', '_progress_handler'],
     ensures=[('copier-starts-with-the-announced-size-and-nothing-copied', copier_init_post)])
 copier_init.no_replay = True
